@@ -19,6 +19,7 @@ def check(ctx):
     ctx.guard(r142_labels, ctx)
     ctx.guard(r144_scalar, ctx)
     ctx.guard(r145_formulas, ctx)
+    ctx.guard(r146_pure, ctx)
 
 
 def r141_siblings(ctx, rule="R14.1"):
@@ -212,3 +213,22 @@ def r145_formulas(ctx, rule="R14.5"):
     r = A.run(f"{M_BM}:count")
     ok = r.ret is mk("call", glob("builtins.len"), (r.params["y_true"],), ())
     ctx.ob(rule, r.func, None, ok, "count = len(y_true)", construct="count formula")
+
+
+def r146_pure(ctx, rule="R14.6"):
+    ctx.rule(rule, "the base metrics do not update their inputs in place (np.asarray / squeeze of an ndarray argument is the caller's "
+                   "own buffer: `w *= mask`, `w[idx] = 0` would change the weights / labels the caller passes to the next metric)")
+    from .common import inplace_updates_of_foreign_values
+    A = Analysis(ctx)
+    n = 0
+    for name in list(RATES) + ["selection_rate", "mean_prediction", "count"]:
+        fq = f"{M_BM}:{name}"
+        r = A.run(fq)
+        n += 1
+        params = set(r.params.values())
+        hits = inplace_updates_of_foreign_values(r, lambda x, params=params: x in params)
+        ok = not hits
+        ctx.ob(rule, fq, hits[0][0].node if hits else None, ok, f"{name} leaves its arguments untouched" if ok else
+               f"{name} applies an in-place {hits[0][1]} to an array that can be the caller's own buffer: the next metric evaluated "
+               "with the same weights / labels sees the modified values", construct=f"{name} does not modify its inputs")
+    ctx.floor(rule, "base metrics", n, 7)
